@@ -244,7 +244,14 @@ def build_object(ws, spec, name, parent=None):
             cells = [tuple(int(v) % n for v in cell[:width]) for cell in spec["cells"]]
             kwargs["cells"] = np.asarray(cells, dtype="uint32").reshape(-1, width)
             model.cells = cells
-        obj = getattr(objects, cls).create(ws, **kwargs)
+        moved = spec.get("moved")
+        if moved:
+            final = kwargs["vertices"]
+            obj = getattr(objects, cls).create(ws, **{**kwargs, "vertices": final + np.asarray(moved, dtype=float)})
+            _ = obj.extent  # the bounding box is in use before the vertices are assigned
+            obj.vertices = final
+        else:
+            obj = getattr(objects, cls).create(ws, **kwargs)
         model.coords = verts
     elif cls == "Grid2D":
         kwargs.update(
